@@ -16,7 +16,12 @@
 (* d = {05}, is spelled out in FIPS 197-upd1; the 2001 text only says "the  *)
 (* inverse of the affine transformation" -- ST_AesThm checks that InvSBox   *)
 (* is the inverse permutation of SBox).  Rcon is derived by XTime.          *)
-(* They are zero-arity constant definitions: TLC evaluates them once.       *)
+(* They are zero-arity constant definitions: TLC evaluates them once at     *)
+(* start-up (about 0.5 s) PROVIDED the root specification declares no       *)
+(* variable named x, y, n, m, exp, or gf.. / ae.. (see NAMING in GF256.tla); *)
+(* otherwise each S-box lookup silently costs ~0.1 s instead of ~1 us.      *)
+(* Check: add  P == IF PrintT("p") THEN SBox ELSE <<>>  to the root module    *)
+(* and use P; "p" must be printed exactly once, before the initial states.  *)
 (*                                                                         *)
 (* Interface:                                                               *)
 (*   SBox, InvSBox          256-tuples, index = byte value + 1              *)
@@ -36,25 +41,30 @@
 EXTENDS GF256, Words
 
 \* ---- S-boxes (5.1.1, 5.3.2) ------------------------------------------------
-ABit(b, i) == (b \div Pow2(i % 8)) % 2                 \* bit (i mod 8) of byte b
+\* Identifiers in this section are prefixed ae and no operator of Words is used: see NAMING in GF256.tla
+\* (SBox / InvSBox must stay constants whatever the variables of the root specification are called).
+AeBit(aeb, aei) == (aeb \div (2^(aei % 8))) % 2                 \* bit (aei mod 8) of byte aeb
 \* b'_i = b_i + b_(i+4) + b_(i+5) + b_(i+6) + b_(i+7) + c_i   (indices mod 8), c = {63} = 99
-AffBit(b, i) == (ABit(b, i) + ABit(b, i+4) + ABit(b, i+5) + ABit(b, i+6) + ABit(b, i+7) + ABit(99, i)) % 2
+AffBit(aeb, aei) == (AeBit(aeb, aei) + AeBit(aeb, aei+4) + AeBit(aeb, aei+5) + AeBit(aeb, aei+6)
+                     + AeBit(aeb, aei+7) + AeBit(99, aei)) % 2
 \* b'_i = b_(i+2) + b_(i+5) + b_(i+7) + d_i                   (indices mod 8), d = {05}
-InvAffBit(b, i) == (ABit(b, i+2) + ABit(b, i+5) + ABit(b, i+7) + ABit(5, i)) % 2
-RECURSIVE FromBits(_,_,_,_)
-FromBits(F(_,_), b, i, acc) == IF i = 8 THEN acc ELSE FromBits(F, b, i+1, acc + F(b, i) * Pow2(i))
-Affine(b)    == FromBits(AffBit, b, 0, 0)
-InvAffine(b) == FromBits(InvAffBit, b, 0, 0)
+InvAffBit(aeb, aei) == (AeBit(aeb, aei+2) + AeBit(aeb, aei+5) + AeBit(aeb, aei+7) + AeBit(5, aei)) % 2
+Affine(aeb)    == AffBit(aeb,0) + 2*AffBit(aeb,1) + 4*AffBit(aeb,2) + 8*AffBit(aeb,3) + 16*AffBit(aeb,4)
+                  + 32*AffBit(aeb,5) + 64*AffBit(aeb,6) + 128*AffBit(aeb,7)
+InvAffine(aeb) == InvAffBit(aeb,0) + 2*InvAffBit(aeb,1) + 4*InvAffBit(aeb,2) + 8*InvAffBit(aeb,3)
+                  + 16*InvAffBit(aeb,4) + 32*InvAffBit(aeb,5) + 64*InvAffBit(aeb,6) + 128*InvAffBit(aeb,7)
 
-\* <<F(lo), ..., F(lo+n-1)>> by halving.  Recursion depth 8 for 256 entries: TLC evaluates zero-arity
-\* constants once at start-up on the JVM main thread, whose stack JAVA_TOOL_OPTIONS=-Xss does not
-\* enlarge; a 256-deep BuildW overflows there, the error is swallowed and the table is then silently
-\* re-evaluated at every use.
-RECURSIVE Tab(_,_,_)
-Tab(F(_), lo, n) == IF n = 1 THEN <<F(lo)>>
-                    ELSE LET h == n \div 2 IN Tab(F, lo, h) \o Tab(F, lo + h, n - h)
-SBox    == LET F(x) == Affine(GInv(x))    IN Tab(F, 0, 256)
-InvSBox == LET F(x) == GInv(InvAffine(x)) IN Tab(F, 0, 256)
+\* <<AeF(aelo), ..., AeF(aelo+aen-1)>> by halving.  Recursion depth 8 for 256 entries: TLC evaluates
+\* zero-arity constants once at start-up on the JVM main thread, whose stack JAVA_TOOL_OPTIONS=-Xss does
+\* not enlarge; a 256-deep Append recursion overflows there, the error is swallowed and the table is
+\* then silently re-evaluated at every use.
+RECURSIVE AeTab(_,_,_)
+AeTab(AeF(_), aelo, aen) == IF aen = 1 THEN <<AeF(aelo)>>
+                            ELSE LET aeh == aen \div 2 IN AeTab(AeF, aelo, aeh) \o AeTab(AeF, aelo + aeh, aen - aeh)
+SBoxEntry(aeb)    == Affine(GInv(aeb))          \* 5.1.1: inverse (0 -> 0), then affine map
+InvSBoxEntry(aeb) == GInv(InvAffine(aeb))       \* 5.3.2: inverse affine map, then inverse
+SBox    == AeTab(SBoxEntry, 0, 256)
+InvSBox == AeTab(InvSBoxEntry, 0, 256)
 
 \* ---- round transformations -------------------------------------------------
 SubBytes(s)    == LET F(k) == SBox[s[k+1] + 1]    IN BuildW(F, 0, 16, <<>>)
